@@ -487,6 +487,13 @@ def remainder(tex):
     return out
 
 
+def _tail_tokens(tail):
+    from plasTeX.TeX import TeX
+    t = TeX()
+    t.input(tail)
+    return list(t.itertokens())
+
+
 def expected_remainder(tail):
     return L.tokenize(tail, L.Table(L.default_table()))
 
@@ -525,7 +532,19 @@ def run_lit(case, st):
     doc = tex.ownerDocument
     if 'reg' in case:
         doc.context['parindent'].value = plasTeX.dimen('%dpt' % case['reg'])
-    tex.input(text + tail)
+    other_blank = common.case_hash(case)[0] % 8 == 0 and kind != 'decimal'
+    if other_blank:
+        # what follows the literal is a token that looks like a blank but is none: a blank of category 12 (as under \obeyspaces or
+        # \catcode`\ =12).  Only a space *token* may be swallowed as the optional space after a literal.
+        from plasTeX.Tokenizer import Other
+        tex.input(text)
+        toks = list(tex.itertokens())
+        tex.inputs[:] = []
+        tex.input('')
+        tex.pushTokens(toks + [Other(' ')] + list(_tail_tokens(tail)))
+        st.counters['literals_followed_by_non_space_blank'] += 1
+    else:
+        tex.input(text + tail)
     st.feature('literal', case['feat'])
     st.feature('tail', tail)
     src = text + tail
@@ -591,6 +610,8 @@ def run_lit(case, st):
         st.violation(classify_lit(case, 'value'), case, 'scanning %s literal %r: %s' % (kind, src, shown))
         return {'nontrivial': True}
     exp_rem = expected_remainder(tail)
+    if other_blank:
+        exp_rem = [(12, ' ')] + exp_rem
     if kind == 'decimal':
         # a bare decimal constant is not a TeX-level quantity (it only occurs inside a dimension,
         # where the optional space belongs to the unit): only its value is judged
